@@ -1451,3 +1451,106 @@ func E5ValueTypes(c *core.Ctx, r *core.Report) {
 	r.Count("E5.value-sites-opaque", opaque)
 	r.Floor("E5.value-sites", 150)
 }
+
+// E5WidthRuns: a range entry of the /W array carries the width of the run it describes.
+func E5WidthRuns(c *core.Ctx, r *core.Report) {
+	r.Rule("E5.w-run", "pdfWriter.writeFont compacts equal glyph widths into range entries `first last width` of the /W array: in every `W = append(W, a, b, v)` the width v is the width of the run's first code, widths[a] (the same slice the runs were found in), and where the entry is guarded by a comparison with the default width it is that same value which is compared. Any other value gives every code of the run an unrelated advance, so a PDF reader spaces the text differently from TextWidth and the path rendering")
+	p := c.MustPkg(pdfRel)
+	info := p.TypesInfo
+	fd := core.MustFuncDecl(p, "pdfWriter.writeFont")
+	r.Func("pdf.pdfWriter.writeFont")
+	n := 0
+	var walk func(node ast.Node, guards []*ast.IfStmt)
+	walk = func(node ast.Node, guards []*ast.IfStmt) {
+		ast.Inspect(node, func(m ast.Node) bool {
+			switch x := m.(type) {
+			case *ast.IfStmt:
+				walk(x.Body, append(append([]*ast.IfStmt{}, guards...), x))
+				if x.Else != nil {
+					walk(x.Else, guards)
+				}
+				return false
+			case *ast.AssignStmt:
+				if len(x.Lhs) != 1 || len(x.Rhs) != 1 {
+					return true
+				}
+				call, ok := core.Unparen(x.Rhs[0]).(*ast.CallExpr)
+				if !ok || len(call.Args) != 4 {
+					return true
+				}
+				if id, ok := call.Fun.(*ast.Ident); !ok || id.Name != "append" {
+					return true
+				}
+				if t := info.TypeOf(call.Args[0]); t == nil || !isNamed(t, "renderers/pdf", "pdfArray") {
+					return true
+				}
+				n++
+				key := fmt.Sprintf("pdf.pdfWriter.writeFont|/W range entry #%d", n)
+				a, v := call.Args[1], core.Unparen(call.Args[3])
+				ie, ok := v.(*ast.IndexExpr)
+				if !ok || types.ExprString(ie.Index) != types.ExprString(a) {
+					r.Fail("E5.w-run", key, c.Pos(x.Pos()), fmt.Sprintf("the entry `%s %s %s` carries `%s`, not the width of its first code (widths[%s]): every code of the run gets an unrelated advance", types.ExprString(a), types.ExprString(call.Args[2]), types.ExprString(v), types.ExprString(v), types.ExprString(a)))
+					return true
+				}
+				// the guard, if it compares a width with the default, compares this width
+				for _, g := range guards {
+					if be, ok := core.Unparen(g.Cond).(*ast.BinaryExpr); ok && be.Op == token.NEQ {
+						if gi, ok := core.Unparen(be.X).(*ast.IndexExpr); ok && types.ExprString(gi.X) == types.ExprString(ie.X) && types.ExprString(gi.Index) != types.ExprString(ie.Index) {
+							r.Fail("E5.w-run", key, c.Pos(x.Pos()), fmt.Sprintf("the entry is emitted when `%s` differs from the default width but carries `%s`", types.ExprString(be.X), types.ExprString(v)))
+							return true
+						}
+					}
+				}
+				r.OK("E5.w-run", key, c.Pos(x.Pos()), types.ExprString(v))
+			}
+			return true
+		})
+	}
+	walk(fd.Body, nil)
+	r.Count("E5.w-range-entries", n)
+	r.Floor("E5.w-range-entries", 1)
+	// the flush after the run loop covers the widths to the end of the slice
+	flushes := 0
+	for i, st := range fd.Body.List {
+		rs, ok := st.(*ast.RangeStmt)
+		if !ok {
+			continue
+		}
+		wid, ok := core.Unparen(rs.X).(*ast.Ident)
+		if !ok {
+			continue
+		}
+		if sl, ok := info.TypeOf(wid).Underlying().(*types.Slice); !ok || !types.Identical(sl.Elem(), types.Typ[types.Int]) {
+			continue
+		}
+		wobj := core.ObjOf(info, wid)
+		for _, after := range fd.Body.List[i+1:] {
+			ast.Inspect(after, func(m ast.Node) bool {
+				se, ok := m.(*ast.SliceExpr)
+				if !ok {
+					return true
+				}
+				id, ok := core.Unparen(se.X).(*ast.Ident)
+				if !ok || core.ObjOf(info, id) != wobj {
+					return true
+				}
+				flushes++
+				key := fmt.Sprintf("pdf.pdfWriter.writeFont|/W trailing entry #%d reaches the last code", flushes)
+				okHigh := se.High == nil
+				if call, isC := core.Unparen(se.High).(*ast.CallExpr); isC && len(call.Args) == 1 {
+					if f, isI := call.Fun.(*ast.Ident); isI && f.Name == "len" && types.ExprString(call.Args[0]) == wid.Name {
+						okHigh = true
+					}
+				}
+				if okHigh {
+					r.OK("E5.w-run", key, c.Pos(se.Pos()), "")
+				} else {
+					r.Fail("E5.w-run", key, c.Pos(se.Pos()), fmt.Sprintf("after the run loop the remaining widths are written as `%s`, which stops before the end of the slice: the last code(s) of the subset get the default width", types.ExprString(se)))
+				}
+				return true
+			})
+		}
+	}
+	r.Count("E5.w-trailing-flushes", flushes)
+	r.Floor("E5.w-trailing-flushes", 1)
+}
